@@ -5,6 +5,7 @@ CONSTANTS
   Steps = {1, 2}
   Overwrite = TRUE
   ZeroReports = "keys"
+  Attempts = 2
 INVARIANTS TypeOK Conservation NonNegative NoDoubleCount InFlightIsPending
-PROPERTY DeliveredMonotone OnlyAckDelivers
+PROPERTY DeliveredMonotone OnlyAckDelivers OnlyAckClearsPending PendingTwiceKeeps
 VIEW View
